@@ -111,7 +111,7 @@ _math('math_pow_int_square', [('b', 'i64')], 'pow(int, 2) is exact or an error',
       bound='exponent 2 only (checked_pow loop unwound 4 times)')
 _math('math_pow_int_negative_or_huge_exponent_is_error', [('b', 'i64'), ('e', 'i64')], 'pow(int, int) with a negative exponent or one beyond 32 bits is an error', 'pow(a, b)',
       lambda v: {'a': {'int': str(v['b'])}, 'b': {'int': str(v['e'])}}, lambda v: ('error',), ['math::pow(i64,i64)'])
-MATH = [k for k in KANI if k.startswith('math_')]
+MATH = [k for k in KANI if k.startswith('math_') and not k.startswith('math_pow')]   # pow: CBMC does not finish on checked_pow's multiplication chain (measured > 40 min)
 
 for _n, _c in [('time_ts_plus_dur', 't + d is the chrono result or an error when not representable, and (t + d) - d == t'),
                ('time_dur_plus_ts_commutes', 'd + t == t + d'), ('time_ts_minus_dur', 't - d is the chrono result or an error'),
@@ -148,7 +148,7 @@ PROPS = {
         kani_thorough=[],
         not_covered=['the algebra of split/join, trim*, replace, regex semantics: properties of std / regex, not of any rscel function (assumed)',
                      'replace/remove/trim*/toLower/toUpper/splitWhiteSpace/matches* wrappers and the arity/type rejection of the #[dispatch] entry points (not under contract)',
-                     'pow with exponents >= 4 is checked only for error cases (bounded Kani harness)'],
+                     'pow: not decided (CBMC does not terminate on checked_pow; no Verus contract): only read + fixed (F3)'],
         assumptions=[],
     ),
     'C14': dict(
